@@ -139,6 +139,7 @@ func TestVerif_C25_Wiring(t *testing.T) {
 	rec := vstat.New(t, "C25", "wiring",
 		"real single-node Store with CDC enabled on a channel; 4..14 ops (thorough ..30): Execute requests of 1..3 statements (insert/update/delete/failing insert, tx or not), snapshot install on the running node (user snapshot + fsmRestore of the newest snapshot), user snapshot, load, boot; non-trivial = a request that changes rows follows a snapshot install, load or boot; distinct by op list")
 	rapid.Check(t, func(rt *rapid.T) {
+		defer g8bRecoverInfra(rec, t)
 		nOps := rapid.IntRange(4, vstat.Scale(14, 30)).Draw(rt, "nOps")
 		serial := 0
 		var ops []c25wOp
@@ -172,7 +173,7 @@ func TestVerif_C25_Wiring(t *testing.T) {
 
 		dir, err := os.MkdirTemp("", "c25w-")
 		if err != nil {
-			rt.Skip("tempdir")
+			g8bInfra("tempdir")
 		}
 		defer os.RemoveAll(dir)
 		ch := make(chan *proto.CDCIndexedEventGroup, 10000)
@@ -183,18 +184,18 @@ func TestVerif_C25_Wiring(t *testing.T) {
 		})
 		if err != nil {
 			t.Logf("infrastructure: %v", err)
-			rt.Skip("store did not come up")
+			g8bInfra("store did not come up")
 		}
 		defer n.Close()
 		s := n.S
 		model, err := vsql.OpenMem()
 		if err != nil {
-			rt.Skip("model")
+			g8bInfra("model")
 		}
 		defer func() { model.Close() }()
 		schema := "CREATE TABLE t(id INTEGER PRIMARY KEY, v TEXT)"
 		if _, _, err := g8bExec(s, false, schema); err != nil {
-			rt.Skip("schema")
+			g8bInfra("schema")
 		}
 		model.Exec(schema)
 
@@ -222,7 +223,7 @@ func TestVerif_C25_Wiring(t *testing.T) {
 				_, idx, err := s.Execute(t.Context(), executeRequestFromStrings(o.Stmts, false, o.Tx))
 				if err != nil {
 					t.Logf("infrastructure: execute: %v", err)
-					rt.Skip("execute failed")
+					g8bInfra("execute failed")
 				}
 				chs, err := c25wApplyReq(model, o.Stmts, o.Tx)
 				if err != nil {
@@ -251,11 +252,11 @@ func TestVerif_C25_Wiring(t *testing.T) {
 				_, rc, err := s.snapshotStore.Open(metas[len(metas)-1].ID)
 				if err != nil {
 					t.Logf("infrastructure: open snapshot: %v", err)
-					rt.Skip("snapshot open failed")
+					g8bInfra("snapshot open failed")
 				}
 				if err := s.fsmRestore(rc); err != nil {
 					t.Logf("infrastructure: restore: %v", err)
-					rt.Skip("restore failed")
+					g8bInfra("restore failed")
 				}
 				replaced = true
 			case "load", "boot":
@@ -277,7 +278,7 @@ func TestVerif_C25_Wiring(t *testing.T) {
 				if o.Kind == "load" {
 					if err := s.Load(t.Context(), loadRequestFromFile(p)); err != nil {
 						t.Logf("infrastructure: load: %v", err)
-						rt.Skip("load failed")
+						g8bInfra("load failed")
 					}
 				} else {
 					f, err := os.Open(p)
@@ -288,7 +289,7 @@ func TestVerif_C25_Wiring(t *testing.T) {
 					f.Close()
 					if err != nil {
 						t.Logf("infrastructure: boot: %v", err)
-						rt.Skip("boot failed")
+						g8bInfra("boot failed")
 					}
 				}
 				os.Remove(p)
